@@ -85,6 +85,11 @@ def plan(seed, subbatch):
         regimes = world.REGIMES_NORMAL + ["zerovol", "stall0", "stall"]
     rows, fired = world.make_stream(sub_rng(seed, "exchange"), n, base_s, start, faults, regimes=regimes,
                                     regime_len=(1, 12))
+    if sub_rng(seed, "fractional-volume").random() < 0.15:
+        # volumes in quarters (exact in binary): conserved like whole numbers
+        for i, r in enumerate(rows):
+            r[5] = r[5] + (i % 4) * 0.25
+        fired["fractional_volumes"] += 1
     feed = sub_rng(seed, "feed")
     k = feed.choice((0, 0, 1, 2, feed.randint(0, len(rows)), len(rows) // 2, len(rows)))
     k = min(k, len(rows))
